@@ -1,4 +1,5 @@
 import FteikVerif.Proofs.GenEquivSolver2
+import FteikVerif.Proofs.FixedPoint
 /-!
 # Tie C for the loops of `_fteik2d.py`: `sweep2d`
 
@@ -153,6 +154,64 @@ theorem gen_sweep2d (hf : FarLaw α) (p : Par2 α) (slow : Grid2 α) (grad : Boo
   obtain ⟨e2, r2⟩ := gen_columns hf p slow grad dirSW dirNW (rangeDown p.nx) (fun j hj => mem_rangeDown' _ _ hj) _ r1
   rw [← e2, ← e1, ← pyRange_up, ← pyRange_down, hd]
   unfold Gen.F2.sweep2d
+  rfl
+
+/-! ## the sweep iteration `for _ in range(nsweep): sweep2d(...)` of `fteik2d` -/
+
+theorem sweep2d_rect (p : Par2 α) (slow : Grid2 α) (grad : Bool) (s : St2 α) {nz nx : Nat}
+    (h : s.tt.IsRect nz nx) : (sweep2d p slow grad s).tt.IsRect nz nx := by
+  rw [sweep2d_tt_eq_sweepTT]
+  obtain ⟨h1, h2⟩ := foldl_ttUpdate_shape p slow (schedule2 p.nz p.nx) s.tt
+  exact ⟨by unfold sweepTT; rw [h1]; exact h.1, fun k hk => by unfold sweepTT; rw [h2 k]; exact h.2 k hk⟩
+
+theorem pyRange_zero (n : Nat) : pyRange 0 (n : Int) 1 = (List.range n).map Int.ofNat := by
+  unfold pyRange
+  simp only [show (1:Int) > 0 by decide, if_true]
+  have : ((n : Int) - 0 + 1 - 1) / 1 = (n : Int) := by omega
+  rw [this, Int.toNat_natCast]
+  apply List.map_congr_left
+  intro k _
+  simp only [Int.ofNat_eq_natCast]
+  omega
+
+theorem foldl_const_iter {β γ : Type} (f : β → β) (l : List γ) (x : β) :
+    l.foldl (fun a _ => f a) x = iter f l.length x := by
+  induction l generalizing x with
+  | nil => rfl
+  | cons _ l ih => simp only [List.foldl_cons, List.length_cons]; rw [ih]; rfl
+
+theorem iter_sweep2d_rect (p : Par2 α) (slow : Grid2 α) (grad : Bool) (n : Nat) (s : St2 α)
+    (h : s.tt.IsRect p.nz p.nx) : (iter (sweep2d p slow grad) n s).tt.IsRect p.nz p.nx := by
+  induction n generalizing s with
+  | zero => exact h
+  | succ n ih => exact ih _ (sweep2d_rect p slow grad s h)
+
+/-- **`nsweep` of the translated `fteik2d` is the iteration count of the model's `sweep2d`**: the loop
+`for _ in range(nsweep): sweep2d(...)` of the source computes `iter (sweep2d …) nsweep` -/
+theorem gen_fteik2d_sweeps (hf : FarLaw α) (p : Par2 α) (slow : Grid2 α) (grad : Bool) (n : Nat) (s : St2 α)
+    (hr : s.tt.IsRect p.nz p.nx)
+    (h1 : p.dzi = one / p.dz) (h2 : p.dxi = one / p.dx) (h3 : p.dz2i = p.dzi / p.dz) (h4 : p.dx2i = p.dxi / p.dx) :
+    Gen.F2.fteik2d_loop6 p.big p.dx p.dz grad (n : Int) p.nx p.nz slow s.tt s.sgn p.vzero p.xsa p.xsi p.zsa p.zsi
+      = (iter (sweep2d p slow grad) n s).toP := by
+  have hl : ∀ (l : List Nat) (s : St2 α), s.tt.IsRect p.nz p.nx →
+      l.foldl (fun (acc : Grid2 α × Grid2 (Int × Int)) (_ : Nat) =>
+        Gen.F2.sweep2d p.big acc.1 acc.2 slow p.dz p.dx (ofInt p.zsi) (ofInt p.xsi) p.zsa p.xsa p.vzero p.nz p.nx grad) s.toP
+        = (iter (sweep2d p slow grad) l.length s).toP := by
+    intro l
+    induction l with
+    | nil => intro s _; rfl
+    | cons a l ih =>
+      intro s hs
+      simp only [List.foldl_cons, List.length_cons]
+      have e : Gen.F2.sweep2d p.big s.toP.1 s.toP.2 slow p.dz p.dx (ofInt p.zsi) (ofInt p.xsi) p.zsa p.xsa p.vzero
+          p.nz p.nx grad = (sweep2d p slow grad s).toP := gen_sweep2d hf p slow grad s hs h1 h2 h3 h4
+      rw [e]
+      exact ih _ (sweep2d_rect p slow grad s hs)
+  have := hl (List.range n) s hr
+  rw [List.length_range] at this
+  rw [← this]
+  unfold Gen.F2.fteik2d_loop6
+  rw [pyRange_zero, List.foldl_map]
   rfl
 
 end Fteik
